@@ -6,7 +6,7 @@ from .spec import Raises, SpecCache, norm_key, same
 from .worlds import model_op
 
 LOOKUPS = {'get', 'getitem', 'read', 'contains'}
-KEY_WRITES = {'set', 'setitem', 'set_read', 'add', 'incr', 'decr', 'pop',
+KEY_WRITES = {'set', 'setitem', 'set_read', 'set_chunks', 'add', 'incr', 'decr', 'pop',
               'delete', 'delitem', 'touch'}
 BULK = {'clear', 'evict', 'expire', 'cull'}
 
